@@ -1483,6 +1483,9 @@ class Process(StateMachine, persistence.Savable, metaclass=ProcessStateMachineMe
         if declared and port_name in port_namespace:
             port = port_namespace[port_name]
             dynamic = False
+            if value is None and isinstance(port, ports.PortNamespace):
+                # (``validate`` reads None as "nothing specified", which is not a value to store for a namespace)
+                raise ValueError(f"Error validating output '{value}' for port '{output_port}': a port namespace takes a mapping")
             validation_error = port.validate(value)
         else:
             port = port_namespace
